@@ -135,6 +135,21 @@ Setup == cfg = NoCfg /\ \E c \in Configs : cfg' = c /\ UNCHANGED <<A, B, last, n
 Make == cfg # NoCfg /\ \E s \in {"A", "B"}, ds \in Catalogue(cfg), mk \in {"all", "ends"} :
             SetSlot(s, Slot(ds, OpOf(cfg, ds), mk), [op |-> "make", s |-> s, decls |-> ds, markers |-> mk])
 
+\* both slots at once (so that binary operations are reached early in the exhaustive run)
+PairOps(c) ==
+    LET far == IF Sx(c) >= 3 THEN 2 ELSE 1
+        t == c.uc[1]
+        base == IF t = "spin" THEN <<Coup(<<1, 0>>, "Sigmaz", "Sigmaz", 1, FALSE), Ons(<<2, 0>>, "Sigmax", FALSE)>>
+                ELSE IF t = "fermion" THEN <<Coup(<<1, 0>>, "Cd", "C", 1, TRUE), Ons(<<2, 0>>, "N", FALSE)>>
+                ELSE <<Coup(<<1, 0>>, "Bd", "B", 1, TRUE), Ons(<<2, 0>>, "N", FALSE)>>
+        lr(z) == IF t = "spin" THEN Coup(z, "Sigmaz", "Sigmaz", far, FALSE) ELSE IF t = "fermion" THEN Coup(z, "Cd", "C", far, TRUE)
+                 ELSE Coup(z, "Bd", "B", far, TRUE)
+        nonh == IF t = "spin" THEN <<Coup(<<1, 2>>, "Sp", "Sm", 1, FALSE)>> ELSE IF t = "fermion" THEN <<Coup(<<0, 1>>, "Cd", "C", far, FALSE)>>
+                ELSE <<Coup(<<0, 1>>, "Bd", "B", 1, FALSE)>>
+    IN {base, base \o <<lr(<<1, 0>>)>>, base \o <<lr(<<2, 0>>)>>, nonh}
+MakePair == cfg # NoCfg /\ A = Empty /\ B = Empty /\ \E da, db \in PairOps(cfg) :
+    Step([op |-> "make_pair", declsA |-> da, declsB |-> db], Slot(da, OpOf(cfg, da), "all"), Slot(db, OpOf(cfg, db), "all"))
+
 Add == Filled("A") /\ Filled("B") /\ AllMarkers("A") /\ AllMarkers("B") /\ \E s \in {"A", "B"} :
            SetSlot(s, Slot(<<>>, EvalMat(MAdd(A.m, B.m)), "all"), [op |-> "add", s |-> s])
 
@@ -182,7 +197,7 @@ QUII == \E s \in {"A", "B"} : Filled(s) /\ AllMarkers(s) /\ Get(s).decls # <<>> 
     (dt = <<0, 0>> \/ (OnsiteOnly(Get(s).decls) /\ IsDiagonal(Get(s).m))) /\
     Step([op |-> "make_U_II", s |-> s, dt |-> dt, diag |-> [r \in 1..D(cfg) |-> Get(s).m[r][r]]], A, B)
 
-Next == Setup \/ Make \/ Add \/ Dagger \/ PlusIdentity \/ Represent \/ QHermitian \/ QEqual \/ QOverlap \/ QExpect \/ QApply
+Next == Setup \/ Make \/ MakePair \/ Add \/ Dagger \/ PlusIdentity \/ Represent \/ QHermitian \/ QEqual \/ QOverlap \/ QExpect \/ QApply
         \/ QUI \/ QUII
 Spec == Init /\ [][Next]_vars
 
